@@ -279,6 +279,16 @@ GENERATED_FILES = {
         "- include_file: inc.yml\n- object: A\n  include: im\n  fields:\n    x: ${{iv}}\n",
         {"inc.yml": "- macro: im\n  fields:\n    q: 1\n- var: iv\n  value: 3\n- object: I\n"},
     ),
+    # files that declare different versions: each file's declarations are only compared with each other,
+    # the including file's version wins
+    "gen/include-version-differs": (
+        "- snowfakery_version: 3\n- include_file: inc.yml\n- object: A\n  fields:\n    x: ${{1 + 1}}\n",
+        {"inc.yml": "- snowfakery_version: 2\n- object: I\n  fields:\n    y: ${{2 + 2}}\n"},
+    ),
+    "gen/include-version-inner-only": (
+        "- include_file: inc.yml\n- object: A\n",
+        {"inc.yml": "- snowfakery_version: 3\n- snowfakery_version: 3\n- include_file: inc2.yml\n- object: I\n", "inc2.yml": "- snowfakery_version: 2\n- object: J\n"},
+    ),
     "gen/include2": (
         "- include_file: inc.yml\n- object: A\n",
         {"inc.yml": "- include_file: inc2.yml\n- object: I\n", "inc2.yml": "- option: oo\n  default: 1\n- object: J\n  fields:\n    v: ${{oo}}\n"},
